@@ -146,10 +146,14 @@ class Gamma:
         return {ATTR_KEYS[k]: self.attr_value(v, table) for k, v in aj}
 
     def inv_attr_value(self, key, val, table):
-        if key == "label":
+        if key == "label" and table in ("n", "e"):
             g = self.prev if self.prev is not None else self
-            k = g.inv_node(val) if table == "n" else g.inv_edge(val)
-            return [4, k]
+            inv = g.inv_node if table == "n" else g.inv_edge
+            if val is None:
+                return [2]
+            if isinstance(val, (set, frozenset)):
+                return [3] + sorted(inv(x) for x in val)
+            return [4, inv(val)]
         if val is None:
             return [2]
         if isinstance(val, bool):
